@@ -326,6 +326,13 @@ func Merge(prop, tier string, files []string) {
 	}
 	r.cov["configurations"] = parts
 	r.maxSamples = 1 << 20
+	var wall float64
+	for _, pc := range parts {
+		if w, ok := pc.(map[string]any)["wall_s"].(float64); ok {
+			wall += w
+		}
+	}
+	r.start = time.Now().Add(-time.Duration(wall * float64(time.Second)))
 	r.Finish()
 }
 
